@@ -39,6 +39,12 @@ def gen_case(r, front, framing, uniq, data_only=False, max_per_read=3, allow_for
     hosted = list(r.choice(HOSTED_SETS))
     flags = {'ignore_missing_slaves': r.random() < 0.4, 'broadcast_enable': r.random() < 0.4 and not front.startswith('tw')}
     layout = gen_layout(r, single, hosted, bool(r.getrandbits(1)))
+    if r.random() < 0.15:
+        # configuration through the process-wide Defaults (keywords left out) / blocks built from one caller-side list
+        flags['via_defaults'] = True
+        layout['via_defaults'] = True
+    if r.random() < 0.15:
+        layout['share_init_lists'] = True
     n = nreq or r.choice([1, 3, 8, 16])
     frames = []
     for i in range(n):
